@@ -275,6 +275,7 @@ def obligations : List Lean.Name := [
   ``crypto_equal_line_exists, ``diffUnordered_is_set_diff, ``simple_object_reuse_sound, ``crypto_idempotent_counterexample,
   ``crypto_duplicate_peer_counterexample,
   -- named object graphs (NA/Props/VpnGraph.lean)
+  ``NA.Vpn.G.cert_refs_created_first, ``NA.Vpn.G.cert_webvpn_exit_first, ``NA.Vpn.G.cert_repoint_counterexample,
   ``NA.Vpn.G.graph_unchanged_only_if_equivalent, ``NA.Vpn.G.graph_converges_partial, ``NA.Vpn.G.graph_fuel_suffices,
   ``NA.Vpn.G.graph_cleanup_accepted, ``NA.Vpn.G.graph_refs_created_first, ``NA.Vpn.G.graph_exec_frame, ``NA.Vpn.G.graph_body_targets,
   ``NA.Vpn.G.graph_unmanaged_untouched, ``NA.Vpn.G.graph_untagged_not_pending, ``NA.Vpn.G.graph_chain_protected]
